@@ -31,6 +31,9 @@ type uStep struct {
 
 type uciCase struct {
 	Steps []uStep `json:"steps"`
+	// microseconds of delay injected (verif hook) after the search has sent its result and before it
+	// marks itself as finished: widens the window "new go arriving immediately after a bestmove"
+	AfterResultUs int `json:"delay_after_result_us,omitempty"`
 }
 
 func goLine(l hx.LimSpec) string {
@@ -136,6 +139,10 @@ type goRecord struct {
 func propC12(c uciCase, o *hx.Obs) *hx.Failure {
 	save := config.Settings
 	defer func() { config.Settings = save }()
+	installLifecycleHook()
+	delays := map[string]int{"result.sent": c.AfterResultUs}
+	hookDelays.Store(&delays)
+	defer func() { empty := map[string]int{}; hookDelays.Store(&empty) }()
 	u := hx.StartUci()
 	quitOK := false
 	defer func() {
@@ -418,6 +425,7 @@ func prevGo(gos []goRecord) string {
 
 func genUciCase(t *rapid.T, maxSteps int) uciCase {
 	var c uciCase
+	c.AfterResultUs = rapid.SampledFrom([]int{0, 0, 200, 1000, 3000}).Draw(t, "afterResultUs")
 	c.Steps = append(c.Steps, uStep{Kind: "uci"}, uStep{Kind: "isready"})
 	n := rapid.IntRange(2, maxSteps).Draw(t, "steps")
 	cur := rc.MustParse(rc.StartFEN)
@@ -608,6 +616,32 @@ func TestC12(t *testing.T) {
 	r.Assume("option values inside the announced ranges; Hash <= 8 MB (larger tables are resource use, not protocol behaviour)")
 
 	hx.Sub(r, "sessions", r.N(70, 1200), func(t *rapid.T) uciCase { return genUciCase(t, 14) }, propC12)
+
+	// the window named in the property: a new go arriving immediately after a bestmove, here after a timed
+	// search that was ended early (its timer goroutine may still be polling), followed by a search that
+	// must not answer before stop
+	hx.Sub(r, "restart-window", r.N(40, 600), func(t *rapid.T) uciCase {
+		c := uciCase{AfterResultUs: rapid.SampledFrom([]int{0, 0, 500, 2000}).Draw(t, "afterResultUs")}
+		first := hx.LimSpec{Mode: "movetime", MoveTime: rapid.IntRange(50, 20000).Draw(t, "mt"), StopAfterMs: -1, PonderHitAfterMs: -1}
+		if rapid.Bool().Draw(t, "clock") {
+			first = hx.LimSpec{Mode: "clock", WTime: 60000, BTime: 60000, StopAfterMs: -1, PonderHitAfterMs: -1}
+		}
+		if rapid.IntRange(0, 2).Draw(t, "depthLimited") == 0 {
+			first.Depth = rapid.IntRange(1, 3).Draw(t, "d") // ends by itself before the time limit
+		}
+		second := hx.LimSpec{Mode: rapid.SampledFrom([]string{"infinite", "ponder"}).Draw(t, "mode2"), StopAfterMs: -1, PonderHitAfterMs: -1}
+		if second.Mode == "ponder" {
+			second.MoveTime = 5000
+		}
+		c.Steps = []uStep{{Kind: "isready"}, {Kind: "go", Limits: first}}
+		if first.Depth > 0 {
+			c.Steps = append(c.Steps, uStep{Kind: "await"})
+		} else {
+			c.Steps = append(c.Steps, uStep{Kind: "sleep", SleepMs: rapid.IntRange(0, 30).Draw(t, "run")}, uStep{Kind: "stop"})
+		}
+		c.Steps = append(c.Steps, uStep{Kind: "go", Limits: second}, uStep{Kind: "sleep", SleepMs: rapid.IntRange(15, 60).Draw(t, "hold")}, uStep{Kind: "isready"}, uStep{Kind: "stop"})
+		return c
+	}, propC12)
 
 	hx.Sub(r, "newgame", r.N(30, 500), func(t *rapid.T) newGameCase {
 		c := newGameCase{Depth: rapid.IntRange(2, 5).Draw(t, "depth")}
